@@ -676,7 +676,8 @@ class CostFunction_GaussApproximation(CostFunction):
         self._needs_errors = False
         self._is_chi2 = False
         self._saturated = True
-        self._kafe2go_identifier = self.name
+        # the identifier must be one of the keys of STRING_TO_COST_FUNCTION (the function names are not)
+        self._kafe2go_identifier = "gauss_approximation_" + ("pointwise" if self.pointwise else "covariance")
 
     def gaussian_approximation_covariance(self, data, model, total_cov_mat):
         r"""A least-squares cost function calculated from (`y`) data and model values,
